@@ -293,6 +293,12 @@ theorem step_skel (p : P) (op : Op) (h1 : ∀ a b c, op ≠ .addProcess a b c) (
           congr 1; congr 1
           exact List.map_set_of (fun x : Process => (x.threads, x.pid)) _ _ _ _ hpr (by rfl)
       · rfl
+  | addKernelMapping lib s e r =>
+    simp only [step]
+    split
+    · split <;> rfl
+    · rfl
+  | removeKernelMapping s => rfl
   | removeMapping pi start =>
     simp only [step]
     split
